@@ -149,6 +149,47 @@ func genC05(c *ctx) {
 			}
 		}
 	}
+	// array block counts that overflow the slice length (the count is data, the slice is memory): every item kind
+	for _, k := range []sx{tInt(64), tInt(16), T("ptr", tInt(64)), tString, T("array", I(4), T("uint", I(8)))} {
+		item, isch := refVarint(-1), sPrim("long")
+		if !k.isL && k.atom == "string" {
+			item, isch = append(refVarint(2), 'h', 'i'), sPrim("string")
+		}
+		if k.tag() == "array" {
+			item, isch = []byte{1, 2, 3, 4}, sFixed("fx4", 4)
+		}
+		rep := func(n int) []byte {
+			var out []byte
+			for i := 0; i < n; i++ {
+				out = append(out, item...)
+			}
+			return out
+		}
+		for _, first := range []int{0, 1, 2, 5} {
+			for _, big := range []int64{1<<63 - 1, 1<<63 - 2, (1<<63 - 1) - int64(first) + 1, 1 << 62, -1 << 63, -(1<<63 - 1), -(1<<63 - 2)} {
+				// only counts the slice length cannot take (Len+count overflows, or -count stays negative); counts that
+				// fit but are not backed by data are finding D14 of property C06
+				cnt := big
+				if big < 0 {
+					cnt = -big
+				}
+				if !(cnt < 0 || cnt > (1<<63-1)-int64(first)) {
+					continue
+				}
+				var b []byte
+				if first > 0 {
+					b = append(refVarint(int64(first)), rep(first)...)
+				}
+				b = append(b, refVarint(big)...)
+				if big < 0 {
+					b = append(b, refVarint(int64(3*len(item)))...)
+				}
+				b = append(b, rep(3)...)
+				sch := sRecord("holder", avro.SchemaRecordField{Name: "a", Type: sArray(isch)})
+				c.emit(T("tread", A("blocks"), A("array-count-overflow"), c05Holder(T("slice", k)), schemaSx(sch), H(b)))
+			}
+		}
+	}
 	// type confusion at depth: a compatible struct for a random record, with one leaf type replaced
 	kinds := c05Kinds()
 	n := c.scale(400, 8000)
@@ -254,12 +295,46 @@ func execC05(op string, a []sx) sx {
 		if !dst.intact() {
 			return T("clobber", c05Dump(dst.v))
 		}
+		if l, cp, bad := sliceOverrun(dst.v.Field(2), 0); bad {
+			return T("overrun", I(int64(l)), I(int64(cp)))
+		}
 		if err != nil {
 			return T("err", c05Dump(dst.v))
 		}
 		return T("ok", c05Dump(dst.v), I(int64(r.Len())))
 	}
 	panic("harness: unknown C05 op " + op)
+}
+
+// sliceOverrun finds a slice whose length exceeds its capacity (items were stored past the end of the backing array)
+func sliceOverrun(v reflect.Value, depth int) (l, c int, bad bool) {
+	if depth > 4 {
+		return 0, 0, false
+	}
+	switch v.Kind() {
+	case reflect.Slice:
+		if v.Len() > v.Cap() {
+			return v.Len(), v.Cap(), true
+		}
+		if k := v.Type().Elem().Kind(); k == reflect.Slice || k == reflect.Pointer || k == reflect.Struct {
+			for i := 0; i < v.Len() && i < 8; i++ {
+				if l, c, bad := sliceOverrun(v.Index(i), depth+1); bad {
+					return l, c, true
+				}
+			}
+		}
+	case reflect.Pointer:
+		if !v.IsNil() {
+			return sliceOverrun(v.Elem(), depth+1)
+		}
+	case reflect.Struct:
+		for i := 0; i < v.NumField(); i++ {
+			if l, c, bad := sliceOverrun(v.Field(i), depth+1); bad {
+				return l, c, true
+			}
+		}
+	}
+	return 0, 0, false
 }
 
 // c05Dump is dumpVal, protected against values that cannot be walked any more
